@@ -390,6 +390,12 @@ def loop_writes(eng, loop, st):
                     locals_mod.add(key)
         except Exception:
             ctx().note("frame-resolve", eng.where(loop), p)
-    for eff in fr.effects:
-        pass
+    # ghost variables updated by hooks attached to statements of the body
+    cc = getattr(eng, "cur_contract", None)
+    if cc is not None and getattr(cc, "hooks", None) and eng.inline_depth == 0:
+        for n in _walk(body):
+            if isinstance(n, (ast.Assign, ast.AugAssign, ast.Expr)):
+                h = cc.hooks.get(ast.unparse(n))
+                if h:
+                    heap.update(h.keys())
     return locals_mod, heap, prefixes
